@@ -16,7 +16,7 @@ TITLE = "Field-set tracking reflects the input and drives exclude_unset"
 RULE = ("Model-based histories: Hypothesis draws a with_fields_set dataclass program (2-5 int fields: required, defaulted, "
         "default_as_set, init=False, InitVar, optional alias; decorated class / decorated base with a decorated or undecorated "
         "subclass) and a history of 2-10 operations: construction (keyword subset / positional prefix / deserialize from a key "
-        "subset), attribute assignment, set_fields, unset_fields, set_fields(overwrite=True), apischema.dataclasses.replace, each "
+        "subset), attribute assignment, set_fields, unset_fields, set_fields(overwrite=True), apischema.dataclasses.replace (the object it was called on keeps its own set afterwards), each "
         "followed by the invariant.  Model = a Python set updated as documented.  Invariant after every step: fields_set(obj) "
         "restricted to declared fields == model; serialize(exclude_unset=True) emits exactly the aliases of the serializable set "
         "fields and serialize(exclude_unset=False) emits all of them (for an undecorated subclass only this second, self-consistency "
@@ -151,6 +151,7 @@ def _evaluate(case, ctx, b, src):
     alias = {f["n"]: (f["alias"] or f["n"]) for f in fields}
     undecorated = inherit == "sub_undecorated"
     obj, model = None, set()
+    originals = []
     unset_step = False
     for i, step in enumerate(hist):
         op = step["op"]
@@ -190,6 +191,7 @@ def _evaluate(case, ctx, b, src):
             elif op == "replace":
                 # dataclasses.replace requires InitVars without default to be given again
                 req_iv = [f["n"] for f in fields if f["kind"] == "initvar"]
+                originals.append((obj, frozenset(model), i))  # the original keeps its own tracked set from now on
                 obj = replace(obj, **{n: 3 for n in list(step["fs"]) + [x for x in req_iv if x not in step["fs"]]})
                 model = model | (set(step["fs"]) - initvars)
         except Exception as e:
@@ -207,6 +209,13 @@ def _evaluate(case, ctx, b, src):
             return
         got = fs & set(declared)
         trunc = {"prog": prog, "history": hist[: i + 1]}
+        if not undecorated:
+            for old, old_model, at in originals:
+                old_got = set(fields_set(old)) & set(declared)
+                if old_got != old_model:
+                    ctx.violation({"kind": "replace_shares_fields_set", "op": op, "inherit": inherit or "none"}, trunc,
+                                  f"after {hist[: i + 1]}: the object replace() was called on at step {at} now has fields_set {sorted(old_got)}, it had {sorted(old_model)}\n{src}")
+                    return
         base_decl = {f["n"] for f in fields[: prog["split"]]} if inherit else set(declared)
         if not undecorated and got != model:
             ctx.violation({"kind": "fields_set_differs", "op": op, "inherit": inherit or "none",
